@@ -455,15 +455,22 @@ def r4(ctx):
     C02.r2(sub)
     C02.r3(sub)
     C02.r4(sub)
+    # prefix removal: the store's prune primitive asks the predicate about each row's own record and removes by its verdict
+    # (the rest of C02.R1 - the value order - is C02's and C01's)
+    sub1 = type(ctx)(ctx.prop, ctx.tier, ctx.facts, ctx.cfg)
+    C02.r1(sub1)
+    sub.obligations += [o for o in sub1.obligations if "# predicate-decides" in o["key"] or "# prune-predicate" in o["key"]]
+    sub.analysed_bodies |= sub1.analysed_bodies
     for o in sub.obligations:
         o = dict(o)
+        o["key"] = o["key"].replace("C02.R1", "C08.R4")
         o["key"] = o["key"].replace("C02.R2a", "C08.R4").replace("C02.R2b", "C08.R4").replace("C02.R3", "C08.R4").replace("C02.R4", "C08.R4")
         o["rule"] = "C08.R4"
         ctx.obligations.append(o)
         if o["status"] != "holds":
             ctx.violations.append(o)
     ctx.analysed_bodies |= sub.analysed_bodies
-    ctx.floor("C08.R4", 6)
+    ctx.floor("C08.R4", 9)
 
 
 def run(ctx):
